@@ -72,8 +72,13 @@ def trimEnd (gs : List G) : List G := (gs.reverse.dropWhile (·.ws)).reverse
 def trim (gs : List G) : List G := trimEnd (trimStart gs)
 def width (gs : List G) : Nat := (gs.map (·.w)).sum
 
-/-- `distance_contribution`: `UnicodeWidthStr::width(section.trim())`. -/
-def distanceContribution (sec : List G) : Nat := width (trim sec)
+/-- `distance_contribution`: `UnicodeWidthStr::width(section.trim())`; in the repaired source
+(generated flag `nonBlankCountsAtLeastOne`) a trimmed section that is not empty counts at least 1:
+`width(trimmed).max(usize::from(!trimmed.is_empty()))`. -/
+def distanceContribution (sec : List G) : Nat :=
+  let trimmed := trim sec
+  if nonBlankCountsAtLeastOne then max (width trimmed) (if trimmed = [] then 0 else 1)
+  else width trimmed
 
 /-- `section.trim().is_empty()`. -/
 def isSpace (sec : List G) : Bool := sec.all (·.ws)
